@@ -1,7 +1,7 @@
 (* Props/C05.v — property C05: collection deltas are coherent with collection values at every tick.
    Statements only; every proof is one [exact].  The models are the mirrors of Coll.v / Window.v;
    a history is a list of engine cycles (time, mutations) at strictly increasing times. *)
-Require Import Base Coll Window CollFacts WindowFacts.
+Require Import Base Coll Window CollFacts TsdFacts WindowFacts.
 
 (* ================================================================== TSS *)
 (* [tss_trace tss_empty h] lists, for every cycle of the history h, the storage before the cycle, the
@@ -76,6 +76,67 @@ Theorem abs_remove : forall V0 t k s ch s',
 Proof. exact CollFacts.remove_step. Qed.
 Print Assumptions abs_remove.
 
+
+(* ================================================================== TSD (keys; TS<int> children) *)
+(* A dictionary key "exists" once its child has a value: the key set observed at a tick is
+   [tsd_valid_keys]; [tsd_added t] / [tsd_removed t] / [tsd_modified_keys t] are what
+   TSDOutputView::added_keys() / removed_keys() / modified_keys() return at time t. *)
+Theorem tsd_from_empty : tsd_valid_keys tsd_empty = [] /\ tsd_keys tsd_empty = [].
+Proof. exact (conj eq_refl eq_refl). Qed.
+Print Assumptions tsd_from_empty.
+
+Theorem tsd_keys_step : forall h, dincreasing MIN_DT h ->
+  forall a t ops b, In (a, t, ops, b) (tsd_trace tsd_empty h) ->
+  forall k, In k (tsd_valid_keys b) <-> (In k (tsd_valid_keys a) /\ ~ In k (tsd_removed t b)) \/ In k (tsd_added t b).
+Proof. exact TsdFacts.tsd_keys_step_l. Qed.
+Print Assumptions tsd_keys_step.
+
+Theorem tsd_disjoint : forall h, dincreasing MIN_DT h ->
+  forall a t ops b, In (a, t, ops, b) (tsd_trace tsd_empty h) ->
+  forall k, In k (tsd_added t b) -> In k (tsd_removed t b) -> False.
+Proof. exact TsdFacts.tsd_disjoint_l. Qed.
+Print Assumptions tsd_disjoint.
+
+Theorem tsd_added_present : forall h, dincreasing MIN_DT h ->
+  forall a t ops b, In (a, t, ops, b) (tsd_trace tsd_empty h) ->
+  forall k, In k (tsd_added t b) -> In k (tsd_valid_keys b) /\ ~ In k (tsd_valid_keys a).
+Proof. exact TsdFacts.tsd_added_present_l. Qed.
+Print Assumptions tsd_added_present.
+
+Theorem tsd_removed_absent_was_present : forall h, dincreasing MIN_DT h ->
+  forall a t ops b, In (a, t, ops, b) (tsd_trace tsd_empty h) ->
+  forall k, In k (tsd_removed t b) -> ~ In k (tsd_valid_keys b) /\ In k (tsd_valid_keys a).
+Proof. exact TsdFacts.tsd_removed_l. Qed.
+Print Assumptions tsd_removed_absent_was_present.
+
+(* the key delta is exactly the net change of the key set, whatever the cycle's mutations were
+   (set / erase / clear / create / reserve in any order and multiplicity) *)
+Theorem tsd_cancel_leaves_no_trace : forall h, dincreasing MIN_DT h ->
+  forall a t ops b, In (a, t, ops, b) (tsd_trace tsd_empty h) ->
+  (forall k, In k (tsd_added t b) <-> In k (tsd_valid_keys b) /\ ~ In k (tsd_valid_keys a)) /\
+  (forall k, In k (tsd_removed t b) <-> In k (tsd_valid_keys a) /\ ~ In k (tsd_valid_keys b)) /\
+  (tsd_struct_current t b = false -> forall k, In k (tsd_valid_keys b) <-> In k (tsd_valid_keys a)) /\
+  (forall k, In k (tsd_modified_keys t b) -> In k (tsd_valid_keys b) /\ In k (tsd_keys b)).
+Proof. exact TsdFacts.tsd_facts. Qed.
+Print Assumptions tsd_cancel_leaves_no_trace.
+
+(* modified keys are live keys that have a value *)
+Theorem tsd_modified_are_live : forall h, dincreasing MIN_DT h ->
+  forall a t ops b, In (a, t, ops, b) (tsd_trace tsd_empty h) ->
+  forall k, In k (tsd_modified_keys t b) -> In k (tsd_valid_keys b) /\ In k (tsd_keys b).
+Proof. exact TsdFacts.tsd_modified_live_l. Qed.
+Print Assumptions tsd_modified_are_live.
+
+(* The VALUE part of the step statement - "every key that is neither removed nor modified keeps its
+   value" - is FALSE of the faithful model (and of the implementation: known finding
+   KF-tsd-set-erase-set-C05): a key written, erased and written again within one cycle carries a new
+   value but is not reported as modified.
+     tsd_value_step : forall h ..., In (a,t,ops,b) (tsd_trace tsd_empty h) -> tsd_apply_delta_ok a t b      (FALSE)  *)
+Theorem tsd_value_step_refuted :
+  exists h a t ops b, dincreasing MIN_DT h /\ In (a, t, ops, b) (tsd_trace tsd_empty h) /\ ~ tsd_apply_delta_ok a t b.
+Proof. exact TsdFacts.tsd_value_step_refuted_l. Qed.
+Print Assumptions tsd_value_step_refuted.
+
 (* ================================================================== tick-count window *)
 (* [spec_whist h []] is the list of values pushed since the last clear according to the protocol
    (one tick per evaluation time; a clear may be followed by one push; anything else is rejected). *)
@@ -113,6 +174,19 @@ Example ex_h_trace :
       (tss_trace tss_empty ex_h)
   = [ ([5; 7], [5; 7], [], 8%nat); ([5], [], [7], 8%nat); ([1; 2; 3; 4; 5; 6; 8; 9; 10; 11], [1; 2; 3; 4; 6; 8; 9; 10; 11], [], 16%nat) ].
 Proof. vm_compute. reflexivity. Qed.
+
+
+Definition ex_d : list (Z * list dop) :=
+  [ (1, [DSet 5 50; DSet 7 70]);
+    (2, [DSet 9 90; DErase 9; DErase 5; DSet 5 51; DErase 7; DCreate 3]);
+    (4, [DSet 1 1; DSet 2 2; DSet 3 3; DSet 4 4; DSet 6 6; DSet 8 8; DSet 10 10; DSet 11 11; DClear; DSet 5 55]) ].
+Example ex_d_trace :
+  dincreasing MIN_DT ex_d /\
+  map (fun x => (sortz (tsd_valid_keys (snd x)), sortz (tsd_added (snd (fst (fst x))) (snd x)), sortz (tsd_removed (snd (fst (fst x))) (snd x)),
+                 sortz (tsd_modified_keys (snd (fst (fst x))) (snd x)), ks_cap (d_ks (snd x))))
+      (tsd_trace tsd_empty ex_d)
+  = [ ([5; 7], [5; 7], [], [5; 7], 8%nat); ([5], [], [7], [5], 8%nat); ([5], [], [], [5], 16%nat) ].
+Proof. vm_compute. split; [repeat split; reflexivity|reflexivity]. Qed.
 
 Example ex_window :
   let h := [ (1, [WPush 10]); (2, [WPush 11]); (3, []); (4, [WPush 12]); (5, [WPush 13; WPush 14]); (7, [WClear; WPush 15]) ] in
